@@ -52,6 +52,14 @@ def arg_py(a):
         return int(x) if isint else float(x)
     if t == "nfscalar":
         return nf_py(a)
+    if t == "badarray":
+        nd_ = a["nd"]
+        shape = {"col": (nd_, 1), "row": (1, nd_), "square": (nd_, nd_), "0d": (), "empty": (0,),
+                 "cube": (nd_, 1, 1)}[a["shape"]]
+        dt = int if a.get("dtype") == "i" else float
+        if a["shape"] == "0d":
+            return np.array(2, dtype=dt)
+        return (np.arange(int(np.prod(shape)), dtype=dt).reshape(shape) + 1) if shape != (0,) else np.array([], dtype=dt)
     if t == "badtype":
         return {"str": "abc", "dict": {"a": 1}, "set": {1, 2}, "none": None, "obj": object()}[a["v"]]
     out = []
@@ -241,7 +249,7 @@ def corner(root, xs, keep=None):
     if keep is not None and not root.get("int"):
         v = np.array(v, dtype=float)
     if keep is not None and isinstance(v, np.ndarray):
-        keep.append((v, v.copy()))
+        keep["arrays"].append((v, v.copy()))
     return v
 
 
@@ -255,20 +263,40 @@ def _corner(root, xs):
     return tuple(v) if root["int"] == "tuple" else v
 
 
+def new_keep():
+    return dict(arrays=[], regions=[], others=[])
+
+
 def build(root, keep=None):
-    """keep: list collecting (array handed to a constructor, pristine copy) - the caller's arrays"""
+    """keep: what the caller still owns after construction - arrays handed to a constructor (with a pristine
+    copy), Region objects handed in (region, subregions), other meshes built from the same objects"""
     region = df.Region(p1=corner(root, root["p1"], keep), p2=corner(root, root["p2"], keep),
                        dims=root["dims"], units=root["units"], tolerance_factor=DEFAULT_TF)
     if root["type"] == "region":
         return region
-    subs = {name: df.Region(p1=corner(root, a, keep), p2=corner(root, b, keep),
-                            dims=root["dims"], units=root["units"])
-            for name, (a, b) in root.get("subs", [])}
+    same_as = root.get("same_as", {})           # name -> name whose Region OBJECT it re-uses
+    subs = {}
+    for name, (a, b) in root.get("subs", []):
+        if name in same_as:
+            subs[name] = subs[same_as[name]]
+            continue
+        # built with the mesh region's dims, units and tolerance factor (what a careful caller does)
+        subs[name] = df.Region(p1=corner(root, a, keep), p2=corner(root, b, keep), dims=root["dims"],
+                               units=root["units"], tolerance_factor=DEFAULT_TF)
     n_arg = root["n"]
     if keep is not None:
         n_arg = np.array(root["n"], dtype=int)
-        keep.append((n_arg, n_arg.copy()))
+        keep["arrays"].append((n_arg, n_arg.copy()))
+        # (the mesh keeps the caller's main Region object by design - known finding C13-shared-subobjects -
+        # so only the subregion objects are tracked)
+        keep["regions"] += [(name, sr, oreg(sr)) for name, sr in subs.items()]
     mesh = df.Mesh(region=region, n=n_arg, bc=root.get("bc", ""), subregions=subs)
+    if keep is not None and subs:
+        # a second mesh built from the first one's subregion dictionary, and one from the caller's objects
+        r2 = df.Region(p1=corner(root, root["p1"]), p2=corner(root, root["p2"]), dims=root["dims"],
+                       units=root["units"], tolerance_factor=DEFAULT_TF)
+        keep["others"].append(df.Mesh(region=r2, n=list(root["n"]), subregions=mesh.subregions))
+        keep["others"].append(df.Mesh(region=r2, n=list(root["n"]), subregions=subs))
     if root["type"] == "mesh":
         return mesh
     n, nv = root["n"], root["nvdim"]
@@ -324,7 +352,9 @@ def mesh_of(obj):
 
 
 def oreg(r):
-    return dict(pmin=[S(x) for x in np.asarray(r.pmin).tolist()], pmax=[S(x) for x in np.asarray(r.pmax).tolist()],
+    # corners are flattened: a corner array of the wrong rank still yields a comparable (wrong) observable
+    return dict(pmin=[S(x) for x in np.asarray(r.pmin).reshape(-1).tolist()],
+                pmax=[S(x) for x in np.asarray(r.pmax).reshape(-1).tolist()],
                 dims=list(r.dims), units=list(r.units))
 
 
@@ -419,6 +449,8 @@ def invariants(obj, form):
         regs += [(name, sr) for name, sr in mesh_of(obj).subregions.items()]
     for name, r in regs:
         pmin, pmax = np.asarray(r.pmin, dtype=float), np.asarray(r.pmax, dtype=float)
+        if pmin.shape != (len(r.dims),) or pmax.shape != (len(r.dims),):
+            bad.append("invariant-corner-shape")
         if not np.all(pmin < pmax):
             bad.append("degenerate-accepted-inplace" if form == "ip" else "degenerate-accepted-copy")
         if not (len(pmin) == len(pmax) == len(r.dims) == len(r.units)):
@@ -501,8 +533,9 @@ def mag(s, st):
 
 def run_history(case):
     root, steps = case["root"], case["steps"]
-    callers = []
-    cur = build(root, callers)
+    keep = new_keep()
+    cur = build(root, keep)
+    callers = keep["arrays"]
     typ = root["type"]
     o0 = observe(cur)
     s0 = hstate_coq(cur, o0)
@@ -520,6 +553,19 @@ def run_history(case):
     for arr, pristine in callers:
         arr[...] = pristine
     alive = []        # (object, snapshot, born): every earlier object of the chain stays alive and is re-checked
+    # Region objects handed to the mesh constructor stay the caller's: the mesh must hold its own
+    if typ != "region":
+        m0 = mesh_of(cur)
+        mine = list(m0.subregions.values())
+        if len({id(x) for x in mine}) != len(mine):
+            oracle.append("constructor-aliases-caller-region")       # one object under two names
+        for name, robj, _ in keep["regions"]:
+            if any(robj is x or shares_state(robj, x) for x in mine):
+                oracle.append("constructor-aliases-caller-region")
+        for other in keep["others"]:
+            if shares_state(other, m0):
+                oracle.append("constructor-aliases-caller-region")
+            alive.append((other, snapshot(other), "other-mesh"))
     for idx, st in enumerate(steps):
         via_mesh = typ == "field" and st["op"] != "rotate"
         real_ip = bool(st["ip"] or via_mesh)
@@ -580,6 +626,7 @@ def run_history(case):
         if st_cp == "ok":
             here += invariants(new, "cp")
         roundoff = bool(case.get("roundoff"))
+        scale_regime = case.get("regime") == "scale"
         if roundoff:
             # rounding regime (far-away positions): which steps survive is decided by rounding, so only the
             # clauses that hold whatever the outcome are evaluated: untouched on refusal, both forms agree,
@@ -604,16 +651,16 @@ def run_history(case):
                 here.append("valid-step-rejected")
             elif exp is not None and ok:
                 sc2 = max([sc] + [abs(x) for x in exp["reg"]["lo"] + exp["reg"]["hi"]])
-                if not matches(o, exp, not rot_now, sc2):
+                if not matches(o, exp, not rot_now and not scale_regime, sc2):
                     here.append("affine-map")
         if via_mesh and st_cp == "ok" and exp is not None and not nf and not roundoff:
             sc2 = max([sc] + [abs(x) for x in exp["reg"]["lo"] + exp["reg"]["hi"]])
-            if not matches(new_root_obs, dict(exp, type="mesh"), not rot_now, sc2):
+            if not matches(new_root_obs, dict(exp, type="mesh"), not rot_now and not scale_regime, sc2):
                 here.append("affine-map")
         oracle += here
         trace.append(dict(step=idx, ip=st_ip, copy=st_cp, after_inplace=obs_ip, after_copy=new_root_obs,
                           clauses=sorted(set(here))))
-        if roundoff or st.get("overflow") or any(o_ is not None and has_nan(o_) for o_ in (obs_ip, obs_cp)):
+        if roundoff or scale_regime or st.get("overflow") or any(o_ is not None and has_nan(o_) for o_ in (obs_ip, obs_cp)):
             nonfinite = True      # outside the Q model: the history stays oracle-only
         if not nonfinite:
             coq_steps.append(f"({g.b(st['ip'])}, {step_coq(st)}, {opt_ostate_coq(obs_ip)}, {opt_ostate_coq(obs_cp)})")
@@ -640,6 +687,10 @@ def run_history(case):
         for x_i, (obj, snap, born) in enumerate(alive):
             if shares_state(obj, cur):
                 oracle.append("copy-shares-state-with-original")
+        if typ != "region":
+            for name, robj, snap in keep["regions"]:
+                if oreg(robj) != snap:
+                    oracle.append("caller-region-modified")
         if has_nan(observe(cur)):
             break
     if any(not np.array_equal(arr, pristine) for arr, pristine in callers):
@@ -1048,9 +1099,10 @@ def directed_far():
                  ["c", [[S(100), S(0)], [S(200), S(1)]]]]
     box_subs = [["a", [[S(0), S(0), S(0)], [S(1), S(1), S(1)]]], ["core", [[S(16), S(0), S(0)], [S(64), S(2), S(1)]]]]
     roots = [
-        dict(type="region", p1=[S(0), S(0), S(0)], p2=[S(1), S(1), S(1)], dims=["x", "y", "z"], units=["m"] * 3),
+        dict(type="region", p1=[S(0), S(0), S(0)], p2=[S(1), S(1), S(1)], dims=["x", "y", "z"],
+             units=["m", "nm", "s"]),
         dict(type="region", p1=[S(0), S(0)], p2=[S(4096), S(1)], dims=["x", "y"], units=["m", "s"]),
-        dict(type="mesh", p1=[S(0), S(0)], p2=[S(4096), S(1)], dims=["x", "y"], units=["m", "m"],
+        dict(type="mesh", p1=[S(0), S(0)], p2=[S(4096), S(1)], dims=["x", "y"], units=["m", "um"],
              n=[4096, 1], bc="", subs=line_subs),
         dict(type="mesh", p1=[S(0), S(0), S(0)], p2=[S(64), S(2), S(1)], dims=["x", "y", "z"],
              units=["m", "nm", "s"], n=[64, 2, 1], bc="", subs=box_subs),
@@ -1162,6 +1214,168 @@ def directed_chains():
     return cases
 
 
+def directed_bad_arrays():
+    """fixed part of every run (seeded e2): numeric arrays of the wrong rank / shape ((ndim,1), (1,ndim),
+    (ndim,ndim), 0-d, empty, (ndim,1,1); float and integer) as translation vector, scale factor and reference
+    point of scale / rotate90, on regions (1-3 d), a mesh with subregions and a field: refused by both forms,
+    nothing touched; accepted corners must stay 1-d of length ndim"""
+    roots = dict(directed_roots())
+    cases = []
+    for name in ("region3", "region1", "mesh3-subs", "mesh2-subs", "field3-vector"):
+        root = roots[name]
+        s = root_sim(root)
+        nd = len(root["p1"])
+        d = root["dims"]
+        steps = []
+        for shape in BAD_SHAPES:
+            for dt in ("f", "i"):
+                a = dict(t="badarray", nd=nd, shape=shape, dtype=dt)
+                steps.append(dict(op="translate", v=a, cls="bad-arr-shape"))
+                steps.append(dict(op="scale", f=a, ref=dict(t="none"), cls="bad-f-arr-shape"))
+                steps.append(dict(op="scale", f=dict(t="scalar", v=S(2), int=True), ref=a, cls="bad-ref-arr-shape"))
+                if nd >= 2:
+                    steps.append(dict(op="rotate", ax1=d[0], ax2=d[1], k=dict(t="int", v=1, rep=None), ref=a,
+                                      cls="bad-ref-arr-shape"))
+        steps = [dict(st, ip=(i % 2 == 0)) for i, st in enumerate(steps) if sim_state(s, st) is None]
+        for i in range(0, len(steps), 6):
+            cases.append(dict(kind="history", root=root, steps=steps[i:i + 6], tame=bool(s["subs"]),
+                              directed="bad-arrays/" + name))
+    return cases
+
+
+def directed_shared_regions():
+    """fixed part of every run (seeded e1): subregion dictionaries that contain one Region OBJECT under two
+    names, built with the mesh region's dims / units / tolerance factor; the caller keeps its Region objects and
+    two more meshes built from the same objects stay alive.  In-place steps must move every subregion once,
+    equal the copying form, and leave the caller's objects and the other meshes alone"""
+    cases = []
+    a3 = [[S(0), S(0), S(0)], [S(2), S(2), S(1)]]
+    b3 = [[S(2), S(1), S(0)], [S(4), S(2), S(1)]]
+    roots = [
+        dict(type="mesh", p1=[S(0), S(0), S(0)], p2=[S(4), S(2), S(1)], dims=["x", "y", "z"],
+             units=["m", "nm", "s"], n=[4, 2, 1], bc="", subs=[["a", a3], ["twin", a3], ["b", b3]],
+             same_as={"twin": "a"}),
+        dict(type="mesh", p1=[S(-1), S(0)], p2=[S(2), S(2)], dims=["x", "y"], units=["m", "m"], n=[3, 1], bc="",
+             subs=[["core", [[S(0), S(0)], [S(2), S(2)]]], ["again", [[S(0), S(0)], [S(2), S(2)]]]],
+             same_as={"again": "core"}),
+        dict(_froot("xyz", [4, 2, 1], [4, 2, 1], 3, subs=[["a", a3], ["twin", a3], ["b", b3]]),
+             same_as={"twin": "a"}),
+        dict(type="mesh", p1=[S(0), S(0), S(0)], p2=[S(4), S(2), S(1)], dims=["x", "y", "z"],
+             units=["m", "m", "m"], n=[4, 2, 1], bc="", subs=[["a", a3], ["b", b3]]),
+    ]
+    for root in roots:
+        d = root["dims"]
+        nd = len(d)
+        mv = dict(op="translate", v=seq([F(1)] * nd), cls="shared")
+        sc = dict(op="scale", f=dict(t="scalar", v=S(2), int=True), ref=seq([F(0)] * nd), cls="shared")
+        neg = dict(op="scale", f=seq([F(-1)] + [F(1)] * (nd - 1)), ref=dict(t="none"), cls="shared")
+        r1 = dict(op="rotate", ax1=d[0], ax2=d[1], k=dict(t="int", v=1, rep=None), ref=dict(t="none"), cls="shared")
+        r2 = dict(op="rotate", ax1=d[0], ax2=d[1], k=dict(t="int", v=2, rep=None), ref=seq([F(1)] * nd),
+                  cls="shared")
+        for st in (mv, sc, neg, r1, r2):
+            for ip in (True, False):
+                cases.append(dict(kind="history", root=root, tame=True, directed="shared-regions",
+                                  steps=[dict(st, ip=ip), dict(mv, ip=True), dict(st, ip=not ip)]))
+    return cases
+
+
+def directed_scale_regime():
+    """fixed part of every run (seeded e3), oracle only, decimal data: thin nm-scale films 0.1 - 1 mm from the
+    origin whose subregions touch the faces of the mesh region, scaled by 1.5, 3, -1.3, 0.3, 1/3 about the
+    origin / the centre in both forms: valid steps, must be accepted, corners within 1e-9 relative"""
+    cases = []
+    for x0 in (1e-4, 5e-4, 1e-3):
+        for y0 in (0.0, 2e-4):
+            p1 = [x0, y0, 0.0]
+            p2 = [x0 + 100e-9, y0 + 50e-9, 5e-9]
+            mid = x0 + 50e-9
+            subs = [["left", [[S(p1[0]), S(p1[1]), S(0.0)], [S(mid), S(p2[1]), S(p2[2])]]],
+                    ["right", [[S(mid), S(p1[1]), S(0.0)], [S(p2[0]), S(p2[1]), S(p2[2])]]]]
+            root = dict(type="mesh", p1=[S(x) for x in p1], p2=[S(x) for x in p2], dims=["x", "y", "z"],
+                        units=["m", "m", "m"], n=[20, 10, 1], bc="", subs=subs)
+            froot = dict(root, type="field", nvdim=1, mapping=None, values=[(i % 5) - 2 for i in range(200)],
+                         valid=[i % 7 != 3 for i in range(200)])
+            for r in (root, froot) if y0 == 0.0 else (root,):
+                for f in (1.5, 3.0, -1.3, 0.3, 1 / 3):
+                    for ref in (dict(t="none"), seq([F(0)] * 3)):
+                        for ip in (True, False):
+                            st = dict(op="scale", f=dict(t="scalar", v=S(f)), ref=ref, ip=ip, cls="film")
+                            cases.append(dict(kind="history", root=r, steps=[st], tame=False, regime="scale",
+                                              directed="scale-regime"))
+    return cases
+
+
+def directed_core_misc():
+    """fixed part of every run: one small group per earlier seeded mechanism that had no directed group yet"""
+    cases = []
+    sub3 = [["a", [[S(0), S(0), S(0)], [S(2), S(2), S(1)]]], ["b", [[S(2), S(1), S(0)], [S(4), S(2), S(1)]]]]
+    reg3 = dict(type="region", p1=[S(0), S(0), S(0)], p2=[S(4), S(2), S(1)], dims=["x", "y", "z"],
+                units=["m", "nm", "s"])
+    mesh3 = dict(reg3, type="mesh", n=[4, 2, 1], bc="", subs=sub3)
+    mesh1 = dict(type="mesh", p1=[S(-2)], p2=[S(6)], dims=["x"], units=["nm"], n=[8], bc="",
+                 subs=[["l", [[S(-2)], [S(1)]]], ["r", [[S(1)], [S(6)]]]])
+    fvec = dict(_froot("xyz", [4, 2, 1], [4, 2, 1], 3, subs=sub3))
+    fvalid = dict(_froot("xyz", [4, 2, 3], [4, 2, 3], 3))
+    fvalid["valid"] = [True] * 24
+    fsvalid = dict(_froot("xy", [3, 2], [3, 2], 1))
+    fsvalid["valid"] = [True] * 6
+    fperm = dict(_froot("xyz", [4, 2, 1], [4, 2, 1], 3, mapping=[["x", "y"], ["y", "x"], ["z", "z"]]))
+    fpart = dict(_froot("xyz", [2, 3, 2], [2, 3, 2], 3, mapping=[["x", "x"], ["y", "y"], ["z", None]]))
+
+    def rot(d, a, b, k, ip, ref=None):
+        return dict(op="rotate", ax1=d[a], ax2=d[b], k=dict(t="int", v=k, rep=None), ref=ref or dict(t="none"),
+                    ip=ip, cls="core")
+
+    def hist(root, steps, tag):
+        cases.append(dict(kind="history", root=root, steps=steps, tame=bool(root.get("subs")), directed="core/" + tag))
+    # a1: array-like factors with negative entries, in place
+    for root in (reg3, mesh3, fvec):
+        for fs in ([-1, 1, 1], [2, -3, 1], [-2, -1, -1], [F(1, 2), 1, -2]):
+            for ref in (dict(t="none"), seq([F(0)] * 3), seq([F(1), F(-1), F(2)], "list")):
+                for as_ in ("tuple", "list", "array"):
+                    hist(root, [dict(op="scale", f=seq([F(x) for x in fs], as_), ref=ref, ip=True, cls="core"),
+                                dict(op="translate", v=seq([F(1)] * 3), ip=False, cls="core")], "a1")
+    # b1: full turns in the copying form return a new, equal object
+    for root in (reg3, mesh3, fvec):
+        d = root["dims"]
+        for k in (0, 4, -4, 8):
+            for ip in (False, True):
+                hist(root, [rot(d, 0, 1, k, ip), rot(d, 0, 1, 1, True), rot(d, 1, 2, k, not ip)], "b1")
+    # b2: the copy of a field keeps a non-default component-to-axis mapping
+    for root, planes in ((fperm, [(0, 1), (1, 2), (0, 2)]), (fpart, [(0, 1)])):
+        d = root["dims"]
+        for a, b in planes:
+            for k in (1, 2, 3):
+                hist(root, [rot(d, a, b, k, False), rot(d, b, a, k, True), rot(d, a, b, 1, False)], "b2")
+    # c3: fully valid masks turn with the field (planes with different cell counts)
+    for root in (fvalid, fsvalid):
+        d = root["dims"]
+        for a, b in ([(0, 1), (1, 2), (0, 2)] if len(d) == 3 else [(0, 1)]):
+            for k in (1, 3, -1):
+                hist(root, [rot(d, a, b, k, True), rot(d, b, a, 1, False), rot(d, a, b, k, True)], "c3")
+    # d1: cell after several in-place steps (anisotropic cells)
+    aniso = dict(type="mesh", p1=[S(0), S(0), S(0)], p2=[S(4), S(1), S(3)], dims=["x", "y", "z"],
+                 units=["m", "m", "m"], n=[2, 4, 1], bc="", subs=[])
+    for root in (aniso, fvalid):
+        d = root["dims"]
+        for a, b in [(0, 1), (1, 2), (0, 2)]:
+            hist(root, [rot(d, a, b, 1, True), rot(d, a, b, 1, True), rot(d, b, a, 3, True),
+                        dict(op="scale", f=seq([F(2), F(1), F(3)]), ref=dict(t="none"), ip=True, cls="core"),
+                        rot(d, a, b, -1, True)], "d1")
+    # d2: falsy reference points (the origin as scalar 0, int 0, array, numpy scalar) with subregions
+    for ref in (dict(t="scalar", v=S(0), int=True), dict(t="scalar", v=S(0)), dict(t="scalar", v=S(0), int=True, np=True),
+                seq([F(0)], "array"), seq([F(0)], "list")):
+        for f in (2, -1, 3):
+            for ip in (True, False):
+                hist(mesh1, [dict(op="scale", f=dict(t="scalar", v=S(f), int=True), ref=ref, ip=ip, cls="core")], "d2")
+    for ref in (seq([F(0)] * 3, "array"), seq([F(0)] * 3, "intarray") | dict(int=True), seq([F(0)] * 3, "tuple"),
+                seq([F(1), F(0), F(0)], "array")):
+        for ip in (True, False):
+            hist(mesh3, [dict(op="scale", f=dict(t="scalar", v=S(2), int=True), ref=ref, ip=ip, cls="core")], "d2")
+            hist(fvec, [dict(op="scale", f=dict(t="scalar", v=S(-2), int=True), ref=ref, ip=ip, cls="core")], "d2")
+    return cases
+
+
 def directed_nonfinite():
     """fixed part of every run: NaN / +inf / -inf (Python float, numpy float32 / float64) in every argument
     position of every operation, on a region, a 1-d region, a mesh with subregions and two fields, in both
@@ -1203,6 +1417,14 @@ def directed_nonfinite():
     return cases
 
 
+BAD_SHAPES = ["col", "row", "square", "0d", "empty", "cube"]
+
+
+def bad_array(rng, nd, shape=None, dtype=None):
+    """a numeric numpy array that is not a 1-d array of length ndim"""
+    return dict(t="badarray", nd=nd, shape=shape or rng.choice(BAD_SHAPES), dtype=dtype or rng.choice(["f", "i"]))
+
+
 def gen_bad_step(rng, s):
     nd = len(s["reg"]["lo"])
     dims = s["reg"]["dims"]
@@ -1210,7 +1432,9 @@ def gen_bad_step(rng, s):
     bade = dict(bad=rng.choice(["str", "none", "complex"]))
     op = rng.choice(["translate", "scale", "scale", "rotate", "rotate"])
     if op == "translate":
-        cls = rng.choice(["len+", "len-", "elem", "type", "scalar-nd"])
+        cls = rng.choice(["len+", "len-", "elem", "type", "scalar-nd", "arr-shape"])
+        if cls == "arr-shape":
+            return dict(op=op, v=bad_array(rng, nd), cls="bad-arr-shape")
         if cls == "len+":
             v = seq(good + [F(1)])
         elif cls == "len-":
@@ -1229,6 +1453,10 @@ def gen_bad_step(rng, s):
                           "ref-scalar-nd"])
         f = dict(t="scalar", v=S(2))
         ref = dict(t="none")
+        if rng.random() < 0.12:
+            if rng.random() < 0.5:
+                return dict(op=op, f=bad_array(rng, nd), ref=ref, cls="bad-f-arr-shape")
+            return dict(op=op, f=f, ref=bad_array(rng, nd), cls="bad-ref-arr-shape")
         if cls == "zero":
             f = dict(t="scalar", v=S(0), int=rng.random() < 0.5)
         elif cls == "zero-axis":
@@ -1262,6 +1490,8 @@ def gen_bad_step(rng, s):
     a1, a2 = (rng.sample(dims, 2) if nd >= 2 else (dims[0], "q"))
     k = dict(t="int", v=rng.randint(-5, 5))
     ref = dict(t="none")
+    if nd >= 2 and rng.random() < 0.12:
+        return dict(op="rotate", ax1=a1, ax2=a2, k=k, ref=bad_array(rng, nd), cls="bad-ref-arr-shape")
     if cls == "same-axis":
         a2 = a1
     elif cls == "unknown-axis":
@@ -1473,7 +1703,8 @@ def directed_integer():
 
 def generate(rng, tier):
     quick = tier == "quick"
-    cases = directed_refusals() + directed_integer() + directed_nonfinite() + directed_large_k() + directed_chains()
+    cases = (directed_refusals() + directed_integer() + directed_nonfinite() + directed_large_k() + directed_chains()
+             + directed_bad_arrays() + directed_shared_regions() + directed_scale_regime() + directed_core_misc())
     # directed single steps: every factor sign x form x reference on a fixed region (exact regime)
     for f in [F(-1), F(-2), F(-1, 2), F(0), F(3)]:
         for ref in [dict(t="none"), seq([F(0), F(0), F(0)]), seq([F(2 ** 20), F(-3 * 2 ** 18), F(5)])]:
@@ -1484,7 +1715,7 @@ def generate(rng, tier):
                     dict(op="scale", f=dict(t="scalar", v=S(f)), ref=ref, ip=ip, cls="directed"),
                     dict(op="rotate", ax1="x", ax2="y", k=dict(t="int", v=1), ref=dict(t="none"), ip=ip, cls="directed"),
                     dict(op="translate", v=seq([F(1), F(-2), F(1, 2)]), ip=not ip, cls="directed")]))
-    nh = 230 if quick else 1500
+    nh = 170 if quick else 1300
     lmax = 8 if quick else 40
     for i in range(nh):
         typ = ["region", "mesh", "mesh", "field"][i % 4]
@@ -1497,6 +1728,10 @@ def generate(rng, tier):
     cases.append(dict(kind="aliased", which="two-fields-one-mesh"))
     cases.append(dict(kind="aliased", which="mesh-region-direct"))
     cases += directed_far()
+    # spread heavy and light cases evenly over the Coq shards (fixed permutation: the directed core stays the same
+    # set of cases in every run, tier and seed)
+    import random
+    random.Random(424242).shuffle(cases)
     return cases
 
 
